@@ -17,6 +17,7 @@
 #include <yaclib/async/wait_until.hpp>
 
 #include <chrono>
+#include <map>
 #include <cstdlib>
 #include <new>
 #include <yaclib_std/chrono>
@@ -68,6 +69,8 @@ struct Peek : yaclib::detail::BaseCore {
 // recorder where the event's counter lives; it adds no behaviour.
 std::ptrdiff_t gCountOffset = 0;
 bool gNaming = false;
+// virtual time of the sync-hook lines of the trace (index into ctx.trace -> ns)
+std::vector<std::pair<std::size_t, unsigned long long>> gSyncTimes;
 bool gInGet = false;  // the waiter is inside Future::Get()
 // address ranges of wait events that have been destroyed in this execution (and not been overwritten by a new one)
 std::vector<std::pair<const char*, const char*>> gDeadEvents;
@@ -252,6 +255,7 @@ bool CallOn(const CallSpec& c, V& fs) {
 void RunScenario(const Scenario& sc) {
   QuarantineScope quarantine;
   gDeadEvents.clear();
+  gSyncTimes.clear();
   gLiveEvents.clear();
   gInGet = false;
   gGetEventLive = nullptr;
@@ -358,6 +362,60 @@ void RunScenario(const Scenario& sc) {
   gNaming = false;
 }
 
+
+unsigned long long TimeOfLine(std::size_t idx) {
+  for (auto& p : gSyncTimes) {
+    if (p.first == idx) return p.second;
+  }
+  return 0;
+}
+
+// No lost wake-up, checked on the implementation in virtual time: `Set()` notifies the event's condition variable (queue q) under
+// the event's mutex, exactly once.  A timed waiter that parks on q AFTER that notification went to sleep although the flag was
+// already set — nothing will wake it but its own timeout — and a timeout wake-up on q after the notification means the waiter
+// sat out its deadline although it had been released before (model: `sleeping_waiter_is_woken`, `quiescent_complete`).
+// `reset_at`: trace lines at which event addresses may be reused (a new wait call of the same waiter).
+std::string LostWakeUp(const std::vector<std::string>& trace, const char* model_ref,
+                       bool (*reset_at)(const std::vector<std::string>&)) {
+  std::map<std::string, std::pair<std::string, std::size_t>> notified;  // queue -> (notifier, line)
+  for (std::size_t k = 0; k < trace.size(); ++k) {
+    std::vector<std::string> t;
+    {
+      std::string cur;
+      for (char ch : trace[k]) {
+        if (ch == ' ') {
+          if (!cur.empty()) t.push_back(cur);
+          cur.clear();
+        } else {
+          cur += ch;
+        }
+      }
+      if (!cur.empty()) t.push_back(cur);
+    }
+    if (t.size() < 4) continue;
+    if (reset_at != nullptr && reset_at(t)) notified.clear();
+    if (t[1] != "M" || t[2][0] != 'q') continue;
+    if (t[3] == "notify_one" || t[3] == "notify_all") {
+      if (!notified.count(t[2])) notified[t[2]] = {t[0], k};
+    } else if (t[3] == "park_timed") {
+      auto it = notified.find(t[2]);
+      if (it != notified.end() && it->second.first != t[0]) {
+        return "timed waiter " + t[0] + " slept although the event was already set (released only by its timeout): Set by " +
+               it->second.first + " at virtual time " + std::to_string(TimeOfLine(it->second.second)) + " ns, waiter parked at " +
+               std::to_string(TimeOfLine(k)) + " ns [lost wake-up; model: " + model_ref + "]";
+      }
+    } else if (t[3] == "wake" && t.size() > 4 && t[4] == "1") {
+      auto it = notified.find(t[2]);
+      if (it != notified.end() && it->second.first != t[0]) {
+        return "timed waiter " + t[0] + " was released only at its deadline T=" + std::to_string(TimeOfLine(k)) +
+               " ns although the event was set at t0=" + std::to_string(TimeOfLine(it->second.second)) + " ns < T [model: " +
+               model_ref + "]";
+      }
+    }
+  }
+  return "";
+}
+
 bool StartsWith(const std::string& s, const std::string& p) { return s.rfind(p, 0) == 0; }
 
 std::vector<std::string> Split(const std::string& s) {
@@ -391,6 +449,12 @@ std::string Monitor(const Scenario& sc, bool done) {
     else ++it;
   }
   if (!done) return "";
+  {
+    auto lost = LostWakeUp(ctx.trace, "Props.C11.sleeping_waiter_is_woken / quiescent_complete", [](const std::vector<std::string>& t) {
+      return t[1] == "E" && (t[2] == "call" || t[2] == "fin");  // a new wait event may reuse the stack slot (same queue name)
+    });
+    if (!lost.empty()) return lost;
+  }
   std::vector<bool> completed(sc.n, false);
   std::vector<std::string> word(sc.n, "empty");
   std::vector<bool> dec1(sc.n, false);  // producer i's last fetch_sub returned 1
@@ -561,7 +625,10 @@ int main(int argc, char** argv) {
     ctx->OnAtomic(obj, op, so, fo, a, e, r, ok);
   };
   yaclib::verif::gHooks.on_sync = [](void* c, const void* obj, int op, int res) {
-    static_cast<vx::Ctx*>(c)->OnSync(obj, op, res);
+    auto* ctx = static_cast<vx::Ctx*>(c);
+    std::size_t before = ctx->trace.size();
+    ctx->OnSync(obj, op, res);
+    if (ctx->trace.size() > before) gSyncTimes.emplace_back(before, Now());
     CheckAlive(obj);
   };
   for (auto& sc : AllScenarios(thorough)) {
